@@ -332,6 +332,7 @@ def sim_histories(rep, module, cfg, consts, label, header, name, num, depth, wor
     gen = int(m.group(1)) if m else 0
     rep.models.append({"config": label + " (simulate, %d walks of depth %d)" % (num, depth), "states_generated": gen, "wall_s": round(r.wall, 1)})
     rep.transitions += gen
+    rep.states += gen      # simulation: states visited along the walks (distinctness is not tracked by TLC in this mode)
     files = [os.path.join(vlib.scratch(), "%s-h-%d.ndjson" % (name, k)) for k in range(PARTS)]
     fh = [open(f, "w") for f in files]
     for f in fh:
@@ -524,10 +525,223 @@ def check_C12(rep):
     rep.exhaustive = ex
 
 
+# ---------------------------------------------------------------------------
+# persistence stages (commit / drop cache / crash events inside container histories) and multi-run acceptor
+
+def persist_stages(rep, prefix, cfgname, what, arrays=True, maps=True):
+    quick = rep.tier == "quick"
+    if arrays:
+        consts = {"EmitEdges": "TRUE", "MaxElems": 3 if quick else 4, "T": 256, "Persist": "TRUE"}
+        den = 8 if quick else 2
+        files, n, total = model_histories(rep, "MC_Array.tla", "MC_Array.cfg", consts,
+                                          "MC_Array with commit/drop-cache/crash events, MaxElems=%d" % consts["MaxElems"],
+                                          {"cfg": {"T": 256}}, lambda ops, key: frac(key + rep.seed, 1, den), prefix + "-mcp")
+        base = len(rep.distinct)
+        rep.distinct.update(range(base, base + n))
+        hist_stage(rep, prefix + "-array-edges", ["array-run"], "array", "ArrayTrace.tla", "ArrayTrace_%s.cfg" % cfgname, files, "edge", what)
+        rep.stages[prefix + "-array-edges"]["selected_of_distinct_histories"] = [n, total]
+        for (T, sizes, num, depth) in ([(256, "{19, 60, 117, 130}", 16, 160)] if quick else
+                                       [(256, "{19, 60, 117, 130}", 200, 400), (512, "{30, 120, 245, 300}", 100, 500)]):
+            nm = "%s-array-walk%d" % (prefix, T)
+            wf, wn = sim_histories(rep, "MC_Array.tla", "MC_Array_sim.cfg",
+                                   {"T": T, "Sizes": sizes, "WithReads": "FALSE", "AllowPop": "FALSE", "MaxElems": 100000, "Persist": "TRUE",
+                                    "GrowUntil": depth // 3, "ShrinkFrom": depth - depth // 3 - 10},
+                                   "MC_Array T=%d with persistence events" % T, {"cfg": {"T": T}}, nm, num, depth)
+            base = len(rep.distinct)
+            rep.distinct.update(range(base, base + wn))
+            hist_stage(rep, nm, ["array-run"], "array", "ArrayTrace.tla", "ArrayTrace_%s.cfg" % cfgname, wf, "full", what)
+    if maps:
+        for (T, nkeys, mode, ksz, vs, num, depth) in ([(256, 40, "spread", 5, "{12, 40, 60}", 16, 160)] if quick else
+                                                     [(256, 40, "spread", 5, "{12, 40, 60}", 200, 400), (256, 24, "clustered", 5, "{12, 40}", 200, 300),
+                                                      (512, 60, "spread", 9, "{12, 100, 200}", 100, 500)]):
+            nm = "%s-map-walk%d-%s" % (prefix, T, mode)
+            wf, wn = sim_histories(rep, "MC_MapWalk.tla", "MC_MapWalk.cfg",
+                                   {"Keys": keyset(nkeys), "DigMode": '"%s"' % mode, "KSz": ksz, "VSizes": vs, "Persist": "TRUE",
+                                    "GrowUntil": depth // 3, "ShrinkFrom": depth - depth // 3},
+                                   "MC_MapWalk T=%d %d keys with persistence events" % (T, nkeys), {"cfg": {"T": T, "limit": 255}}, nm, num, depth)
+            base = len(rep.distinct)
+            rep.distinct.update(range(base, base + wn))
+            hist_stage(rep, nm, ["map-run"], "map", "MapTrace.tla", "MapTrace_%s.cfg" % cfgname, wf, "full", what)
+    rep.exhaustive = False
+
+
+def multirun_stage(rep, stage, kind, hist_files, variants, tcfg, what, envs=None):
+    """Run every history under every variant (optionally once per environment = fresh process), merge the
+    run records per history and validate with MultiRunTrace."""
+    exe = vlib.build_harness()
+    envs = envs or [{}]
+    procs = []
+    t0 = time.time()
+    for k, f in enumerate(hist_files):
+        for e, env in enumerate(envs):
+            out = os.path.join(vlib.scratch(), "%s-mr-%d-%d.ndjson" % (stage, k, e))
+            vs = [dict(v, name="%s/env%d" % (v["name"], e)) for v in variants]
+            penv = dict(os.environ)
+            penv.update(env)
+            procs.append((k, e, out, subprocess.Popen([exe, "multirun", "-kind", kind, "-in", f, "-out", out, "-seed", str(rep.seed + e),
+                                                       "-variants", json.dumps(vs)], stdout=subprocess.PIPE, stderr=subprocess.PIPE, text=True, env=penv)))
+    outs = {}
+    nh = 0
+    for k, e, out, p in procs:
+        so, se = p.communicate(timeout=3600)
+        if p.returncode != 0:
+            raise Inconclusive("multirun failed (%d): %s" % (p.returncode, se[-3000:]))
+        outs.setdefault(k, []).append(out)
+        if e == 0:
+            nh += vlib.last_json(so).get("histories", 0)
+    merged = []
+    for k, files in sorted(outs.items()):
+        recs = []
+        for f in files:
+            with open(f) as fh:
+                recs += [(json.loads(line)["t"], i, line) for i, line in enumerate(fh)]
+            os.remove(f)
+        recs.sort(key=lambda x: x[0])
+        mf = os.path.join(vlib.scratch(), "%s-trace-%d.ndjson" % (stage, k))
+        with open(mf, "w") as fh:
+            for _, _, line in recs:
+                fh.write(line)
+        merged.append(mf)
+    t1 = time.time()
+    results = vlib.validate_traces(merged, "MultiRunTrace.tla", tcfg, stage + "-tv")
+    log("stage %s: %d histories x %d variants x %d envs, harness %.1fs, validation %.1fs" % (stage, nh, len(variants), len(envs), t1 - t0, time.time() - t1))
+
+    def describe(res, rec, trace, why):
+        part = int(re.search(r"-(\d+)$", res["dir"]).group(1))
+        with open(hist_files[part]) as f:
+            lines = f.read().split("\n")
+        hist = json.loads(lines[rec["t"]])
+        cfg = json.loads(lines[0])["cfg"]
+        sig = "multirun:%s:%s" % (kind, why)
+        w = "%s: variant %s of a history of %d ops disagrees with the reference run (%s)" % (what, rec["variant"], len(hist), why)
+        return sig, w, {"engine": "multirun", "kind": kind, "cfg": cfg, "history": hist, "variants": variants, "envs": envs,
+                        "seed": rep.seed, "trace": trace}
+
+    nrec = handle_results(rep, results, "MultiRunTrace.tla", tcfg, describe, multirun_replay, stage)
+    rep.traces += nrec
+    rep.evaluations += nrec
+    rep.stages[stage] = {"histories": nh, "runs": nrec, "variants": [v["name"] for v in variants], "envs": envs, "trace_cfg": tcfg}
+
+
+def multirun_replay(payload):
+    exe = vlib.build_harness()
+    d = os.path.join(vlib.scratch(), "replay-%d" % random.randrange(1 << 30))
+    os.makedirs(d)
+    hf = os.path.join(d, "h.ndjson")
+    with open(hf, "w") as f:
+        f.write(json.dumps({"cfg": payload["cfg"]}) + "\n" + json.dumps(payload["history"]) + "\n")
+    lines = []
+    for e, env in enumerate(payload["envs"]):
+        out = os.path.join(d, "o%d.ndjson" % e)
+        vs = [dict(v, name="%s/env%d" % (v["name"], e)) for v in payload["variants"]]
+        penv = dict(os.environ)
+        penv.update(env)
+        p = subprocess.run([exe, "multirun", "-kind", payload["kind"], "-in", hf, "-out", out, "-seed", str(payload["seed"] + e),
+                            "-variants", json.dumps(vs)], capture_output=True, text=True, env=penv)
+        if p.returncode != 0:
+            raise Inconclusive("multirun failed: " + p.stderr[-2000:])
+        lines += open(out).read().splitlines(True)
+    tf = os.path.join(d, "all.ndjson")
+    open(tf, "w").write("".join(lines))
+    res = vlib.validate_traces([tf], payload["trace_module"], payload["trace_cfg"], os.path.basename(d) + "-tv")
+    for r in res:
+        if "error" in r:
+            raise Inconclusive(r["error"])
+    return any(not r["ok"] for r in res)
+
+
+def walk_files(rep, prefix, kind, quick):
+    """Histories (without persistence events) for the multi-run acceptor."""
+    if kind == "array":
+        T, sizes, num, depth = (256, "{19, 60, 117, 130}", 48 if quick else 300, 120 if quick else 300)
+        return sim_histories(rep, "MC_Array.tla", "MC_Array_sim.cfg",
+                             {"T": T, "Sizes": sizes, "WithReads": "TRUE", "AllowPop": "FALSE", "MaxElems": 100000,
+                              "GrowUntil": depth // 3, "ShrinkFrom": depth - depth // 3 - 10},
+                             "MC_Array T=%d (multi-run histories)" % T, {"cfg": {"T": T}}, prefix + "-mrh-a", num, depth)
+    T, nkeys, mode, ksz, vs, num, depth = (256, 40, "spread", 5, "{12, 40, 60}", 48 if quick else 300, 120 if quick else 300)
+    return sim_histories(rep, "MC_MapWalk.tla", "MC_MapWalk.cfg",
+                         {"Keys": keyset(nkeys), "DigMode": '"%s"' % mode, "KSz": ksz, "VSizes": vs,
+                          "GrowUntil": depth // 3, "ShrinkFrom": depth - depth // 3},
+                         "MC_MapWalk T=%d %d keys (multi-run histories)" % (T, nkeys), {"cfg": {"T": T, "limit": 255}}, prefix + "-mrh-m", num, depth)
+
+
+V_REF = {"name": "ref-commit-at-end-1worker", "sched": "end", "mode": "det", "workers": 1, "faults": 0}
+
+
+def check_C03(rep):
+    rep.rule = ("(a) storage level: SlabStorage closure, every explored history replayed, commit / recreate / retrieve events strict, "
+                "BaseOnlyInCommit + TempNeverWritten + CommitOK + DropReverts; (b) container level: TLC-explored array histories with "
+                "every placement of commit / drop cache / crash between operations (all shapes up to 3-4 elements) and simulated "
+                "array and map walks with such events: after every successful commit a brand-new storage over a copy of the ledger "
+                "must reconstruct exactly the model content from the registers alone; the ledger call counter must not move outside "
+                "commits; no call may carry the zero address; a crash must restore the last committed content")
+    quick = rep.tier == "quick"
+
+    def sel(ops, key):
+        return frac(key + rep.seed, 1, 12 if quick else 2)
+    files, n, total = storage_histories(rep, 3, sel, "c03-mc3")
+    rep.distinct.update(range(n))
+    storage_stage(rep, "c03-storage-edges", "SlabStorageTrace_C03.cfg", files, "edge")
+    persist_stages(rep, "c03", "C03", "ledger does not hold the last committed state")
+
+
+def check_C07(rep):
+    rep.rule = ("at every commit point of TLC-explored array histories and simulated array/map walks the registers are decoded by a "
+                "brand-new storage and projected; the cold forest (elements in order, sizes, counts, type info, seeds, sibling links, "
+                "header copies, inlined children) must EQUAL the forest of the in-memory slabs that produced the registers, and satisfy TreeInv")
+    persist_stages(rep, "c07", "C07", "decoded registers differ from the slabs that produced them")
+
+
+def check_C08(rep):
+    rep.rule = ("multi-run acceptor: each TLC-simulated history (arrays and maps, with reads and rejected requests) is executed under "
+                "the schedules {commit only at the end (reference), commit after every operation, random commit/drop-cache/reopen, commit+reopen, "
+                "commit+drop-cache}; all runs must give identical per-operation results, identical final content and byte-identical final registers")
+    quick = rep.tier == "quick"
+    variants = [V_REF,
+                {"name": "commit-every-op", "sched": "every", "mode": "det", "workers": 2, "faults": 0},
+                {"name": "random-commit-drop-reopen", "sched": "random", "mode": "det", "workers": 3, "faults": 0},
+                {"name": "commit-reopen", "sched": "reopen", "mode": "det", "workers": 1, "faults": 0},
+                {"name": "commit-dropcache", "sched": "drop", "mode": "nondet", "workers": 4, "faults": 0}]
+    for kind in ("array", "map"):
+        files, n = walk_files(rep, "c08", kind, quick)
+        base = len(rep.distinct)
+        rep.distinct.update(range(base, base + n))
+        multirun_stage(rep, "c08-multirun-" + kind, kind, files, variants, "MultiRunTrace_C08.cfg", "cache is not transparent")
+    rep.exhaustive = False
+
+
+def check_C04(rep):
+    rep.rule = ("(a) SlabStorage closure: DetOrder invariant, commit events replayed and validated (call order ascending (owner, index)); "
+                "(b) DetOrder on every commit of simulated array/map walks with persistence events; (c) multi-run acceptor: each history "
+                "executed with 1/2/7/64 workers, both commit kinds, random commit/reopen points, in fresh processes with GOMAXPROCS 1 and 16: "
+                "final registers must be byte-identical under identical identifiers")
+    quick = rep.tier == "quick"
+
+    def sel(ops, key):
+        return any(o["op"] == "commit" for o in ops) and frac(key + rep.seed, 1, 16 if quick else 2)
+    files, n, total = storage_histories(rep, 3, sel, "c04-mc3")
+    rep.distinct.update(range(n))
+    storage_stage(rep, "c04-storage", "SlabStorageTrace_C04.cfg", files, "full")
+    persist_stages(rep, "c04", "C04", "deterministic commit issues calls out of (owner, index) order", arrays=True, maps=True)
+    variants = [V_REF,
+                {"name": "2-workers", "sched": "end", "mode": "det", "workers": 2, "faults": 0},
+                {"name": "7-workers-random-schedule", "sched": "end", "mode": "det", "workers": 7, "faults": 0},
+                {"name": "64-workers", "sched": "end", "mode": "det", "workers": 64, "faults": 0},
+                {"name": "order-relaxed-4-workers", "sched": "end", "mode": "nondet", "workers": 4, "faults": 0}]
+    envs = [{"GOMAXPROCS": "1"}, {"GOMAXPROCS": "16"}] if quick else [{"GOMAXPROCS": "1"}, {"GOMAXPROCS": "2"}, {"GOMAXPROCS": "16"}, {"GOMAXPROCS": "5"}]
+    for kind in ("array", "map"):
+        files, n = walk_files(rep, "c04", kind, quick)
+        base = len(rep.distinct)
+        rep.distinct.update(range(base, base + n))
+        multirun_stage(rep, "c04-multirun-" + kind, kind, files, variants, "MultiRunTrace_C04.cfg",
+                       "ledger state is not a function of the history", envs=envs)
+    rep.exhaustive = False
+
+
 def replay(rep, path):
     payload = json.load(open(path))
     eng = payload.get("engine")
-    fn = {"hist": hist_replay, "storage-random": storage_random_replay}.get(eng)
+    fn = {"hist": hist_replay, "storage-random": storage_random_replay, "multirun": multirun_replay}.get(eng)
     if fn is None:
         raise Inconclusive("unknown engine in replay file: %s" % eng)
     if fn(payload):
@@ -542,7 +756,11 @@ def replay(rep, path):
 CHECKS = {
     "C01": check_C01,
     "C02": check_C02,
+    "C03": check_C03,
+    "C04": check_C04,
     "C05": check_C05,
+    "C07": check_C07,
+    "C08": check_C08,
     "C12": check_C12,
     "C14": check_C14,
     "C15": check_C15,
